@@ -30,6 +30,8 @@ def run_mgm(eng, p):
     cg, comps = build_computations(inst.dcop, algo, inst.mode, params)
     bench = Bench(eng, sleep_sets=p.get("sleep", True))
     bench.fixed_schedule = bool(p.get("fixed"))
+    if p.get("free_targets"):
+        bench.free_targets = set(p["free_targets"])
     for c in comps:
         bench.add(c)
     snaps = {c.name: [] for c in comps}
